@@ -325,11 +325,14 @@ def refusals(repo, rep):
     if va is None:
         rep.inconcl("R-RANGE-REFUSE", site, "set() signature not understood")
         return
-    for n in (2, 3, 4):
-        for i in range(n):
-            for k in range(i + 1, n):
+    for n, i, k, dup in [(n, i, k, dup) for n in (2, 3, 4) for i in range(n) for k in range(i + 1, n) for dup in (None, 0, -5)]:
+        if True:
+            if True:
+                # the duplicated value itself: positive, zero, negative (a test scaled by the magnitude of the values dies at zero)
                 xs = [T.num(10 * (j + 1)) for j in range(n)]
                 xs[k] = xs[i]
+                if dup is not None:
+                    xs[i] = xs[k] = T.num(dup)
                 args = ("tuple", ("list",) + tuple(xs), ("list",) + tuple(T.sym("Y%d" % j) for j in range(n)))
                 try:
                     outs, _ = symx.eval_function(repo, MOD, qual, arg_terms={"self": T.sym("self"), va: args}, unroll=8)
@@ -348,11 +351,11 @@ def refusals(repo, rep):
                     elif o.kind in ("fall", "ret") and c == ("bool", True):
                         survives = True
                 if (not refused or survives) and bad is None:
-                    bad = (n, i, k)
+                    bad = (n, i, k, "the value %s" % (dup if dup is not None else 10 * (i + 1)))
     if bad is None:
-        rep.ok("R-RANGE-REFUSE", site, "a duplicated abscissa is refused with ValueError at every pair of positions (%d tables of 2..4 points)" % n_cases)
+        rep.ok("R-RANGE-REFUSE", site, "a duplicated abscissa (positive, zero or negative) is refused with ValueError at every pair of positions (%d tables of 2..4 points)" % n_cases)
     else:
-        rep.violation("R-RANGE-REFUSE", site, "duplicates", "a table of %d points whose abscissae %d and %d coincide is not refused with ValueError" % bad)
+        rep.violation("R-RANGE-REFUSE", site, "duplicates", "a table of %d points whose abscissae %d and %d coincide (at %s) is not refused with ValueError" % bad)
 
 
 def find_dup_check(fn, helpers=()):
